@@ -3,12 +3,14 @@
     patterns, instantiations, hosts and extension histories, and carried over to
     what the matchers report on strings and matrices (every certified automaton,
     and the single-pattern baseline, which also terminates): [c11_*_matcher_*],
-    [c11_*_single_*].  Port graphs: the clauses hold of the specification and are
-    refuted for the matchers (known finding D6). *)
+    [c11_*_single_*].  Port graphs: the clauses hold of the specification; for the
+    matchers they hold on good patterns ([c11_portgraph_single_self_good],
+    [c11_portgraph_single_extension_good]) and are refuted in general (known
+    finding D6). *)
 From PM Require Import Model.Prelude Model.Domain Model.Matchers Model.DomString Model.DomMatrix Spec.Occ Proofs.OccMono
   Model.DomPGKeys Model.DomPG Model.DomPGPattern Properties.C05
   Model.Automaton Model.Traversal Cert.LabCheck Proofs.StringExact Proofs.MatrixExact Proofs.StringSingle Proofs.MatrixSingle
-  Proofs.SingleTotalDomains.
+  Proofs.SingleTotalDomains Proofs.PGSingleGood Proofs.PGWalkEmbed.
 
 Theorem c11_string_self :
   forall (sigma : N -> N) (p : spattern), occ_string p (s_inst sigma p) 0.
@@ -162,6 +164,37 @@ Proof.
   destruct (Hfw (occ_matrix_self sigma fill p Hc)) as [a [b Hin]]. eauto.
 Qed.
 
+(** port graphs, where the clauses do hold for the matcher: good patterns
+    ([pg_good_pattern], see Properties/C05.v).  Self-occurrence: the baseline
+    reports the pattern in itself, every node bound to itself.  Extension: an
+    embedding survives every extension of the host that keeps it well-formed
+    (links added, nodes added, ports added), and is still reported. *)
+Theorem c11_portgraph_single_self_good :
+  forall (P : pghost) (root : N) cs nk fuel r,
+    pg_cvec_full P root = Ok (cs, nk) -> lines_sound P root = true -> keys_distinct nk = true ->
+    pg_good_pattern P root cs nk = true -> pg_host_wfb P = true -> In root (live_nodes P) ->
+    single pg_dom fuel cs P = Ok r ->
+    exists m, In m r /\ forall u k, In (u, k) nk -> pgget m k = Some u.
+Proof.
+  intros P root cs nk fuel r CV Hls Hkd Hg Hw Hl S.
+  apply (pg_single_reports_embedding P root cs nk P (fun u => u) fuel r CV Hls Hkd Hg Hw Hw); [|exact S].
+  split; [auto|]. split; [auto|exact Hl].
+Qed.
+
+Theorem c11_portgraph_single_extension_good :
+  forall (P : pghost) (root : N) cs nk (H H' : pghost) (f : N -> N) fuel r,
+    pg_cvec_full P root = Ok (cs, nk) -> lines_sound P root = true -> keys_distinct nk = true ->
+    pg_good_pattern P root cs nk = true -> pg_host_wfb P = true ->
+    pg_embedding P H root nk f ->
+    incl (pg_links H) (pg_links H') -> incl (live_nodes H) (live_nodes H') -> pg_host_wfb H' = true ->
+    single pg_dom fuel cs H' = Ok r ->
+    exists m, In m r /\ forall u k, In (u, k) nk -> pgget m k = Some (f u).
+Proof.
+  intros P root cs nk H H' f fuel r CV Hls Hkd Hg Hw [El [Ei Er]] Hinc Hlive Hw' S.
+  apply (pg_single_reports_embedding P root cs nk H' f fuel r CV Hls Hkd Hg Hw Hw'); [|exact S].
+  split; [intros a oa b ib Hin; apply Hinc; now apply El|]. split; [exact Ei|now apply Hlive].
+Qed.
+
 Example c11_example :
   occ_stringb [Lit 97; Var 1; Var 1]%N (s_inst (fun _ => 98%N) [Lit 97; Var 1; Var 1]%N) 0 = true
   /\ s_ext [97; 98; 98]%N 0 ([99] ++ ([97; 98; 98] ++ [97]))%N 1.
@@ -184,6 +217,8 @@ Print Assumptions c11_string_single_extension.
 Print Assumptions c11_matrix_matcher_self.
 Print Assumptions c11_matrix_matcher_extension.
 Print Assumptions c11_matrix_single_self.
+Print Assumptions c11_portgraph_single_self_good.
+Print Assumptions c11_portgraph_single_extension_good.
 Print Assumptions c11_portgraph_self_spec.
 Print Assumptions c11_portgraph_extension_spec.
 Print Assumptions c11_portgraph_matcher_extension_refuted.
